@@ -621,6 +621,14 @@ func genC05(r *rng, tier string, add func(g *G)) {
 		g.open()
 		g.keys = g.randomKeys(10)
 		fill := 20 + g.r.intn(40)
+		if i%4 == 1 {
+			// the record of the empty key with the empty value (an all-zero 6-byte header) early in a
+			// segment that will be compacted, live records behind it
+			g.put(g.pick(), g.r.bytes(20+g.r.intn(30)))
+			g.put([]byte{}, []byte{})
+			g.keys = append(g.keys, []byte{})
+			g.c.tag("empty_key_empty_value_record_in_compacted_segment")
+		}
 		if i%3 == 2 {
 			// an overflow chain with holes: live records behind a hole must still be promoted
 			g.keys = g.collidingKeys(44, 14, "h")
